@@ -10,7 +10,7 @@
                           UPDATE / DELETE   stmt-BEFORE, BEFORE ROW of all rows, change, AFTER ROW of all rows,
                                             stmt-AFTER   [spec_two_pass]. *)
 From Coq Require Import List ZArith Bool Permutation.
-From VibeSQL Require Import Store.Trigger Store.Atomic Store.TriggerLaws Store.AtomicLaws Store.AppliedLaws.
+From VibeSQL Require Import Store.Trigger Store.Atomic Store.TriggerLaws Store.TriggerCount Store.AtomicLaws Store.AppliedLaws.
 Import ListNotations.
 
 Theorem C34_insert_fires_once : forall f ctx d t tb rows d' log n vrows,
@@ -51,7 +51,7 @@ Print Assumptions C34_insert_select_fires_once.
 (** the images: INSERT row triggers see no OLD and as NEW a row the statement appended; DELETE row triggers see no NEW
     and as OLD a stored, selected row, and afterwards exactly the unselected rows remain (side conditions as in C11) *)
 Theorem C34_insert_images : forall f ctx d t tb rows d' log n vrows,
-  exec (S f) ctx d (SInsert t true rows) = (d', log, Ok n) -> frame_on f t ->
+  exec (S f) ctx d (SInsert t true rows) = (d', log, Ok n) -> frame_on f d t ->
   get_table d t = Some tb -> validate_rows d tb ctx rows 0 [] = inr vrows ->
   exists tb', get_table d' t = Some tb' /\ tb_rows tb' = tb_rows tb ++ vrows /\
     forall fi, In fi log -> t_gran (f_trig fi) = GRow ->
@@ -60,7 +60,7 @@ Proof. exact exec_insert_images. Qed.
 Print Assumptions C34_insert_images.
 
 Theorem C34_delete_images : forall f ctx d t w d' log n tb,
-  exec (S f) ctx d (SDelete t w) = (d', log, Ok n) -> frame_on f t ->
+  exec (S f) ctx d (SDelete t w) = (d', log, Ok n) -> frame_on f d t ->
   wf d -> get_table d t = Some tb -> references t tb = [] ->
   exists tb', get_table d' t = Some tb'
     /\ tb_rows tb' = map snd (filter (fun ir => negb (selected ctx w ir)) (indexed 0 (tb_rows tb)))
@@ -73,7 +73,7 @@ Print Assumptions C34_delete_images.
     every row-level firing saw as OLD the row stored at some position before the statement and as NEW the row stored
     at that position afterwards *)
 Theorem C34_update_images_pre_post : forall f ctx d t asg w d' log n tb,
-  exec (S f) ctx d (SUpdate t asg w) = (d', log, Ok n) -> frame_on f t ->
+  exec (S f) ctx d (SUpdate t asg w) = (d', log, Ok n) -> frame_on f d t ->
   wf d -> get_table d t = Some tb -> references t tb = [] ->
   exists tb', get_table d' t = Some tb' /\
     forall fi, In fi log -> t_gran (f_trig fi) = GRow ->
@@ -81,6 +81,24 @@ Theorem C34_update_images_pre_post : forall f ctx d t asg w d' log n tb,
                         /\ nth_error (tb_rows tb) i = Some old /\ nth_error (tb_rows tb') i = Some new.
 Proof. exact exec_update_images_pre_post. Qed.
 Print Assumptions C34_update_images_pre_post.
+
+(** exactly once: in the list the code produces for UPDATE / DELETE (and for INSERT), a row trigger of the statement's
+    table and event -- enabled, BEFORE or AFTER, trigger names distinct -- occurs once for every affected row that passes
+    its gates ([gate] = UPDATE OF column changed, when both images exist, and WHEN is TRUE), and not more *)
+Theorem C34_two_pass_exactly_once : forall trigs t ev, NoDup (map t_id trigs) -> forall ctx tr imgs,
+  In tr trigs -> t_table tr = t -> event_eqb (t_event tr) ev = true -> t_enabled tr = true -> t_gran tr = GRow ->
+  t_timing tr = Before \/ t_timing tr = After ->
+  count_id (t_id tr) (spec_two_pass ctx trigs t ev imgs) = length (filter (gate tr) imgs).
+Proof. exact two_pass_exactly_once. Qed.
+Print Assumptions C34_two_pass_exactly_once.
+
+Theorem C34_insert_exactly_once : forall trigs t ctx tr rows,
+  NoDup (map t_id trigs) ->
+  In tr trigs -> t_table tr = t -> t_event tr = EvInsert -> t_enabled tr = true -> t_gran tr = GRow ->
+  t_timing tr = Before \/ t_timing tr = After ->
+  count_id (t_id tr) (spec_insert ctx trigs t rows) = length (filter (fun r => when_fires tr None (Some r)) rows).
+Proof. exact insert_exactly_once. Qed.
+Print Assumptions C34_insert_exactly_once.
 
 (** the two-pass order is a permutation of the per-row order: every (trigger, affected row) pair of the per-row
     specification occurs exactly as often in the list the code produces *)
